@@ -800,6 +800,65 @@ def memo_invalidation_rule(ctx, rid: str, pid: str, floor: int = 0):
                        f'`{ast.unparse(ws[0])[:60]}` changes a field that the memoised `{mname}` was computed from ({sorted(src)}), but {mn} leaves `{mname}` as it is', ci.mod.rel, ws[0].lineno)
     return n
 
+
+def emptiness_belief_rule(ctx, rid: str, pid: str, floor: int = 0):
+    """Contradicted belief (Engler et al.): a function that tests whether a sequence may be empty does not take its first / last element where that test does not protect it."""
+    from ..flow import dominating_atoms
+    repo = ctx.repo
+    ctx.rule(rid, 'first element only of a sequence known to be non-empty: where a function itself tests a local sequence in a way that admits the empty case (len(x) <= 1, len(x) < 2, '
+             'len(x) == 0, not x), every x[0] / x[-1] in that function is dominated by a condition that excludes the empty case (x, len(x), len(x) > 0, len(x) >= 1, len(x) == k > 0, or '
+             'the negation of one of the admitting tests) - the code states that x may be empty and then indexes it anyway', floor=floor, style='RG')
+
+    def len_of(e):
+        if isinstance(e, ast.Call) and isinstance(e.func, ast.Name) and e.func.id == 'len' and len(e.args) == 1 and isinstance(e.args[0], ast.Name):
+            return e.args[0].id
+        return None
+
+    def own_nodes(fn):
+        inner = {id(x) for f in ast.walk(fn) if f is not fn and isinstance(f, (ast.FunctionDef, ast.AsyncFunctionDef, ast.Lambda)) for x in ast.walk(f)}
+        return [x for x in ast.walk(fn) if id(x) not in inner]
+
+    def nonempty(atom, pol, x):
+        if isinstance(atom, ast.Name) and atom.id == x:
+            return pol
+        if len_of(atom) == x:
+            return pol
+        if isinstance(atom, ast.Compare) and len(atom.ops) == 1 and isinstance(atom.comparators[0], ast.Constant) and isinstance(atom.comparators[0].value, int) and len_of(atom.left) == x:
+            k = atom.comparators[0].value
+            op = type(atom.ops[0]).__name__
+            if pol:
+                return (op == 'Gt' and k >= 0) or (op == 'GtE' and k >= 1) or (op == 'Eq' and k >= 1) or (op == 'NotEq' and k == 0)
+            return (op == 'LtE' and k >= 0) or (op == 'Lt' and k >= 1) or (op == 'Eq' and k == 0)
+        return False
+    n = 0
+    for m, ci, fn in _functions(repo, pid):
+        nodes = own_nodes(fn)
+        beliefs: Dict[str, ast.AST] = {}
+        for t in nodes:
+            if isinstance(t, ast.Compare) and len(t.ops) == 1 and isinstance(t.comparators[0], ast.Constant) and isinstance(t.comparators[0].value, int):
+                x, k, op = len_of(t.left), t.comparators[0].value, type(t.ops[0]).__name__
+                if x and ((op == 'LtE' and k >= 0) or (op == 'Lt' and k >= 1) or (op == 'Eq' and k == 0)):
+                    beliefs.setdefault(x, t)
+            if isinstance(t, ast.UnaryOp) and isinstance(t.op, ast.Not) and isinstance(t.operand, ast.Name):
+                beliefs.setdefault(t.operand.id, t)
+        if not beliefs:
+            continue
+        par = m.parents()
+        for s_ in nodes:
+            if not (isinstance(s_, ast.Subscript) and isinstance(s_.value, ast.Name) and s_.value.id in beliefs and isinstance(s_.ctx, ast.Load)):
+                continue
+            idx = s_.slice
+            v = -idx.operand.value if isinstance(idx, ast.UnaryOp) and isinstance(idx.op, ast.USub) and isinstance(idx.operand, ast.Constant) else \
+                idx.value if isinstance(idx, ast.Constant) and isinstance(idx.value, int) and not isinstance(idx.value, bool) else None
+            if v not in (0, -1):
+                continue
+            x = s_.value.id
+            n += 1
+            ok = any(nonempty(a, p_, x) for a, p_ in dominating_atoms(par, s_, fn))
+            ctx.ob(rid, f'{m.name}.{(ci.name + ".") if ci else ""}{fn.name}:{ast.unparse(s_)}', ok, '' if ok else
+                   f'`{ast.unparse(s_)}` is taken where `{x}` may be empty: the function itself tests `{ast.unparse(beliefs[x])}`, and nothing on the way to this line excludes the empty case', m.rel, s_.lineno)
+    return n
+
 FLOORS = {   # (z_fwd, z_drop, z_pair): about two thirds of the instances confirmed on the tree the rules were armed on
     'C01': (7, 40, 11),
     'C02': (4, 55, 8),
@@ -835,11 +894,12 @@ def apply(ctx, pid: str, only=None):
         'z_opt': lambda: optional_argument_purity_rule(ctx, f'{pid}.z_opt', pid, floor=0),
         'z_gen': lambda: single_use_generator_rule(ctx, f'{pid}.z_gen', pid, floor=0),
         'z_memo': lambda: memo_invalidation_rule(ctx, f'{pid}.z_memo', pid, floor=0),
+        'z_first': lambda: emptiness_belief_rule(ctx, f'{pid}.z_first', pid, floor=0),
     }
     out = {}
     for k, f in rules.items():
         if only is None or k in only:
             out[k] = f()
     ctx.decided.append(f'{pid}.z_* general rules on the functions attributed to this property: sibling calls forward the same parameters (z_fwd), a wrapper does not swallow an option its '
-                       'callee accepts (z_drop), positional pairing only over ordered collections (z_pair), presence of a key is not tested by truthiness of the value (z_get), constructors do not mutate their arguments (z_ctor), optional option bags are inputs only (z_opt), generators are consumed once (z_gen), a lazily memoised field is dropped wherever its source fields are reassigned (z_memo)')
+                       'callee accepts (z_drop), positional pairing only over ordered collections (z_pair), presence of a key is not tested by truthiness of the value (z_get), constructors do not mutate their arguments (z_ctor), optional option bags are inputs only (z_opt), generators are consumed once (z_gen), a lazily memoised field is dropped wherever its source fields are reassigned (z_memo), x[0] / x[-1] only where the function\'s own emptiness test protects it (z_first)')
     return out
